@@ -439,3 +439,21 @@ Proof.
   split; [apply spec_negsize_antisym|].
   split; [apply spec_negsize_trans; assumption | apply spec_negsize_empty_last].
 Qed.
+
+(* combined statements used verbatim by props/Properties_C30.v *)
+Lemma round_div_floor_ceil n d : 0 < d ->
+  (round_div true n d * d <= n < (round_div true n d + 1) * d) /\
+  ((round_div false n d - 1) * d < n <= round_div false n d * d).
+Proof. intros H. split; [exact (floor_div_spec n d H) | exact (ceil_div_spec n d H)]. Qed.
+
+Lemma evaluate_fee_both_spec round_down fee size at_size :
+  is_i64 fee -> 0 < size <= INT32_MAX -> 0 <= at_size <= INT32_MAX ->
+  is_i64 (round_div round_down (fee * at_size) size) ->
+  evaluate_fee round_down fee size at_size = round_div round_down (fee * at_size) size /\
+  evaluate_fee_fallback round_down fee size at_size = round_div round_down (fee * at_size) size.
+Proof. intros. split; [apply evaluate_fee_spec | apply evaluate_fee_fallback_spec]; assumption. Qed.
+
+Lemma byratio_cross_product a b : ff_ok a -> ff_ok b ->
+  byratio_cmp a b = (fst a * snd b ?= fst b * snd a) /\
+  byratio_cmp_fallback a b = (fst a * snd b ?= fst b * snd a).
+Proof. intros Ha Hb. split; [apply byratio_cmp_spec | apply byratio_cmp_fallback_spec]; assumption. Qed.
